@@ -65,6 +65,8 @@ pub struct Ctx {
     pub known: KnownFindings,
     /// replay mode: no known-finding tolerance for panics inside targets etc.
     pub replaying: bool,
+    /// proptest shrink budget (expensive properties use a small one)
+    pub shrink_iters: u32,
 }
 
 impl Ctx {
@@ -90,6 +92,8 @@ pub enum Verdict {
     Known { id: String, what: String },
     /// the case lies in a region excluded because of a known finding
     Excluded,
+    /// a watchdog / resource limit hit: says nothing about the property (exit 2)
+    Inconclusive(String),
 }
 
 #[derive(Clone, Debug)]
@@ -115,6 +119,9 @@ impl Report {
             self.labels.push(l);
         }
         self
+    }
+    pub fn inconclusive(msg: impl Into<String>) -> Report {
+        Report { labels: Vec::new(), nontrivial: false, verdict: Verdict::Inconclusive(msg.into()) }
     }
     pub fn is_fail(&self) -> bool {
         matches!(self.verdict, Verdict::Fail(_))
@@ -173,6 +180,12 @@ impl Stats {
             }
             Verdict::Excluded => {
                 self.excluded += 1;
+                return;
+            }
+            Verdict::Inconclusive(m) => {
+                if self.inconclusive.len() < 12 {
+                    self.inconclusive.push(format!("stage {}: {}", stage, m));
+                }
                 return;
             }
             _ => {}
@@ -295,7 +308,7 @@ pub fn run_prop<C, S>(
         cases: cases as u32,
         rng_seed: RngSeed::Fixed(ctx.stage_seed(stage)),
         failure_persistence: None,
-        max_shrink_iters: std::env::var("VERIF_SHRINK_ITERS").ok().and_then(|s| s.parse().ok()).unwrap_or(400),
+        max_shrink_iters: std::env::var("VERIF_SHRINK_ITERS").ok().and_then(|s| s.parse().ok()).unwrap_or(ctx.shrink_iters),
         max_global_rejects: 1_000_000,
         max_local_rejects: 1_000_000,
         verbose: 0,
@@ -408,6 +421,8 @@ pub struct PropInfo {
     pub needs_checked: bool,
     /// max shards that make sense (1 for checks that own all cores themselves)
     pub max_shards: usize,
+    /// proptest shrink iterations after a failure
+    pub shrink_iters: u32,
     /// watchdog for the whole run (seconds): quick, thorough
     pub watchdog_s: (u64, u64),
     pub run: fn(&Ctx, &mut Stats),
